@@ -8,6 +8,9 @@ UNIT_MODES = {
     'addsub': ['dbg', 'rel'],
     'powlog': ['dbg', 'rel'],
     'div': ['dbg', 'rel'],
+    'numtraits_fwd': ['dbg', 'rel'],
+    'numtraits_int': ['dbg', 'rel'],
+    'numtraits_gcd': ['dbg', 'rel'],
     'mul': ['dbg', 'rel'],
     'bits': ['dbg', 'rel'],
     'shift_ops': ['dbg', 'rel'],
